@@ -312,6 +312,19 @@ def judge(ctx, T, sc, res, tag):
     ctx.obligation("corr:%s" % tag, not bad, "; ".join(bad[:2]))
 
 
+def scaled_twin(base, k):
+    """the same scenario with previous state, loads and prescribed values multiplied by 2^k (exact in floats)"""
+    import copy
+    s = 2.0 ** k
+    sc = copy.deepcopy(base)
+    for f in ("u", "v", "a"):
+        sc["state"][f] = [s * x for x in sc["state"][f]]
+    for d in sc["dirichlet"] + sc["neumann"]:
+        d["values"] = [s * x for x in d["values"]]
+    sc["scale_twin"] = {"k": k, "base": base}
+    return sc
+
+
 def energy_scenarios(rng, tier):
     """undamped, unloaded, homogeneous constraints; first step is backward Euler (ends in dynamic equilibrium
     whatever the start), then a long interleaving of average-acceleration Newmark and midpoint with varying
@@ -372,6 +385,20 @@ def correspondence(ctx, T):
     sc["restart"] = {"k": 0}
     sc["info_only"] = True
     scs.append(("info-restart-parabolic-on-elastic", sc))
+    # scale invariance: the step is linear in (state, loads, prescribed values) -> the 2^k-scaled twin must return
+    # exactly 2^k times the result, satisfy every relation relative to its OWN size, on the direct and Newton paths
+    downs, ups = [-60, -45, -40, -37, -33], [30, 50, 12]
+    for a in ALGOS:
+        kind = "thermal" if a == "parabolic" else "elastic"
+        base = gen_scenario(rng, kind, 2, algos=[a])
+        scs.append(("scale-base-%s" % a, base))
+        for k in ([rng.choice(downs), rng.choice(ups)] if quick else downs + ups):
+            scs.append(("scale-%s-2^%d" % (a, k), scaled_twin(base, k)))
+        if a != "euler_explicit":
+            nb = gen_scenario(rng, "elastic", 2, newton=True, algos=[a])
+            scs.append(("scale-base-newton-%s" % a, nb))
+            for k in ([rng.choice(downs + ups)] if quick else [-60, -37, 50]):
+                scs.append(("scale-newton-%s-2^%d" % (a, k), scaled_twin(nb, k)))
     for i in range(6 if quick else 40):
         scs.append(("mixed-%d" % i, gen_scenario(rng, "elastic", 4 if quick else 6)))
     for i in range(3 if quick else 12):
@@ -389,8 +416,17 @@ def correspondence(ctx, T):
         ctx.violation("corr:impl-crash", "the implementation-side harness failed: " + (err.strip().splitlines()[-1][:200] if err.strip() else "no output"),
                       {"stderr": err}, found_input=False)
         return
+    by_id = {id(sc): r for (_, sc), r in zip(scs, res)}
     for (tag, sc), r in zip(scs, res):
         judge(ctx, T, sc, r, tag)
+        tw = sc.get("scale_twin")
+        if tw and r["ok"] and by_id[id(tw["base"])]["ok"]:
+            from corr import c05_replay
+            more = c05_replay.compare_scaled(sc, by_id[id(tw["base"])]["steps"], r["steps"], tw["k"])
+            ctx.obligation("corr:%s:homogeneous" % tag, not more, "; ".join(more[:1]))
+            if more:
+                n = int(more[0].split()[1])
+                ctx.violation("impl:%s:scaling%s" % (sc["steps"][n]["algo"], ":newton" if sc.get("newton") else ""), more[0], replay_of(sc), found_input=True)
     ctx.cov["corr_scenarios"] = len(scs)
     ctx.cov["corr_tolerance"] = "1e-9 relative to the step's own magnitudes, no absolute floor (1e-8 on the Newton path); exact Fractions on the model side; scaled twins 1e-12"
     # documented precondition: EasyFEA starts from a0 = 0; average-acceleration Newmark then changes the energy in
@@ -631,7 +667,7 @@ def run(ctx):
         results = {}
         if r0.ok:
             par = ["C05_%s.v" % a for a in ALGOS] + ["C05_relations.v"]
-            with ThreadPoolExecutor(max_workers=4) as ex:
+            with ThreadPoolExecutor(max_workers=3) as ex:
                 for f, r in zip(par, ex.map(lambda f: ctx.coq([f], timeout=600), par)):
                     results[f] = r
             if all(results["C05_%s.v" % a].ok for a in ("midpoint", "newmark", "euler_implicit")):
